@@ -7,7 +7,10 @@ CFG = {'assumptions': ['f64 inputs cross the boundary as bit patterns and are de
                  'coordinates are finite'],
  'count': {'quick': 40000, 'thorough': 1600000},
  'lean_files': ['GeoModel/Hull.lean', 'GeoModel/Orient.lean', 'GeoModel/Traverse.lean', 'GeoModel/Ops/C08.lean',
-                'GeoProofs/Lemmas/C08Mem.lean', 'GeoProofs/Lemmas/C08Trivial.lean'],
+                'GeoProofs/Lemmas/C08Mem.lean', 'GeoProofs/Lemmas/C08Trivial.lean',
+                'GeoProofs/Lemmas/C08QAlg.lean', 'GeoProofs/Lemmas/C08QSort.lean', 'GeoProofs/Lemmas/C08QScan.lean',
+                'GeoProofs/Lemmas/C08QHull.lean', 'GeoProofs/Lemmas/C08QQuick.lean', 'GeoProofs/Lemmas/C08QRound.lean',
+                'GeoProofs/Lemmas/C08QF64.lean'],
  'rule': 'coordinate multisets of 0-16 points (duplicates inserted) on 3x3..8x8 grids, boundary-heavy sets (many '
          'collinear boundary points), all-collinear sets, fewer than four points, exactly shifted/scaled grids, '
          'and regime-A sets with ~2^40..2^60 coordinates where the farthest-point dot product is rounded; '
@@ -19,14 +22,20 @@ CFG = {'assumptions': ['f64 inputs cross the boundary as bit patterns and are de
                   'sequence is not unique) are SKIPped and counted',
                   'minimum_rotated_rect is compared numerically (area within 2^-36 relative to the squared '
                   'coordinate scale) with the exact minimum over hull-edge directions; trigonometry is not modelled',
-                  'global convexity/containment of the recursive hulls is not proved for the model; it is decided '
-                  'on every case by the verified checker isStrictHull evaluated on the implementation output']}
+                  'global convexity/containment is proved for the model Graham scan: with exact distances for all inputs '
+                  '(grahamHull_isStrictHull_exact), with roundF64 distances for all inputs outside the SKIP class '
+                  'grahamTie (grahamHull_isStrictHull_f64_partial; roundF64 is proved monotone); it is not proved for '
+                  'the ring kept by the recursive hull_set of quick-hull; there it is decided on every case by the '
+                  'verified checker isStrictHull evaluated on the implementation output']}
 
 MANIFEST = {'note': 'Trusted: Lean 4.33 kernel (axioms propext, Classical.choice, Quot.sound only; audited per theorem '
          'each run; no sorry, no native_decide, no added axioms); the Lean compiler running the model; the '
          'Rust harness, generators and line protocol (sampling, not proof). The theorems are about the '
          'hand-written model; the model is tied to the code by running both on the same inputs each run. '
-         'Global correctness of quick-hull/Graham (containment, convexity) is NOT proved; it is decided per case '
+         'Global correctness (containment, convexity) of the Graham scan IS proved for the model: with exact '
+         'distances for all inputs, with binary64-rounded distances for all inputs outside the SKIP class grahamTie '
+         '(generally under the explicit hypothesis DistExactPivot); for the ring kept by the recursive '
+         'quick-hull it is NOT proved; there it is decided per case '
          'by the checker isStrictHull whose soundness lemmas are proved. Two defects (F6 ties, K5 rounding in '
          'the farthest-point search) were repaired by one fix: commit that verifies the quick-hull ring and falls '
          'back to the Graham scan.',
@@ -38,13 +47,32 @@ MANIFEST = {'note': 'Trusted: Lean 4.33 kernel (axioms propext, Classical.choice
          'rounding function: hull vertices are input coordinates and the ring is closed (hull_set, quick-hull, '
          'Graham, trivial hull, ConvexHull; convex_hull = quick_hull ring); quick_hull returns either a ring that '
          'passed its verification or the Graham ring; the Graham stack pass keeps a strictly left-turning chain '
-         '(graham_pass_convex_partial: local invariant only); for fewer than four coordinates the whole property '
+         '(graham_pass_convex_partial: local invariant, any input order). Global correctness of the Graham scan: '
+         'the orientation order around the lexicographically least point is transitive in its half-plane '
+         '(orientation_order_trans, graham_cmp_trans) and the comparator is total (graham_cmp_total); the insertion '
+         'sort returns a comparator-sorted list for every rounding (graham_sort_sorted), which is SortedAround in '
+         'exact terms when rounded distances order collinear points like exact ones (graham_sort_sortedAround_partial, '
+         '_exact for rnd = id); a popped point lies in the triangle pivot / point below / new point '
+         '(graham_popped_in_triangle); on a sorted list the stack pass keeps pivot + stack in strictly convex position '
+         '(every ordered triple turns left) and every processed point in the convex hull of the stack '
+         '(graham_pass_global_partial); hence the checker accepts the Graham ring: grahamHull_isStrictHull_exact '
+         '(rnd = id, all inputs with three non-collinear coordinates, no further hypothesis), '
+         'grahamHull_isStrictHull_partial and graham_contains_partial (any rounding, hypothesis DistExactPivot: seen '
+         'from the pivot, rounded squared distances order collinear points like exact ones), '
+         'grahamHull_isStrictHull_notie_partial (any monotone rounding with rnd 0 = 0, input outside the SKIP class '
+         'grahamTie; distExactPivot_monotone), grahamHull_isStrictHull_f64_partial (rnd = roundF64, which is proved '
+         'monotone with roundF64 0 = 0: roundF64_monotone; only hypothesis: not in the SKIP class grahamTie), '
+         'graham_contains_exact; the slice quick_hull hands to its Graham fallback has exactly the input coordinates '
+         '(quickHullRaw_same_coords), so quick_hull / convex_hull are accepted whenever the fallback is taken or fewer '
+         'than four coordinates are given (quickHull_isStrictHull_partial, convexHull_isStrictHull_partial: acceptance '
+         'of a kept quick-hull ring is a hypothesis); for fewer than four coordinates the whole property '
          'holds (trivialHull_correct, small_hull_correct); the decidable checker isStrictHull is sound and '
          'complete for its four clauses (closed, strict left turn at every vertex hence no repeated vertex and '
          'none on the line through its neighbours, vertices are input coordinates, every input coordinate left '
          'of or on every edge) and accepts nothing for inputs without three non-collinear coordinates; every '
          'candidate box of minimum_rotated_rect contains all hull vertices and the minimum is taken '
          '(mrr_contains, minBoxArea_le); kernel-evaluated witnesses of the two repaired defects. NOT proved: '
-         'global convexity/containment of quick-hull and Graham for four or more points (decided on every '
+         'containment for the ring kept by the recursive quick-hull (four or more points) and Graham on inputs '
+         'with a rounded-distance tie (SKIPped) (decided on every '
          'generated case by the checker on the implementation output, quick-hull vs Graham vertex sets '
          'compared), and area(mrr) <= area(bounding rect) (needs Freeman-Shapira; checked numerically per case).'}
